@@ -141,6 +141,7 @@ pub struct Report {
 impl Report {
     pub fn new(id: &str, tier: Tier, level: &'static str) -> Report {
         let seed = std::env::var("VERIF_SEED").ok().and_then(|s| s.parse::<i64>().ok()).unwrap_or(0);
+        *WATCH_ID.lock().unwrap() = Some((id.to_string(), tier.name()));
         Report {
             id: id.to_string(),
             tier,
@@ -315,6 +316,47 @@ pub fn catch<T>(f: impl FnOnce() -> T) -> Result<T, String> {
 /// Run `f` over all cases on all cores, merging results deterministically (in case order).
 pub static STAGE: std::sync::atomic::AtomicUsize = std::sync::atomic::AtomicUsize::new(0);
 
+// ---- watchdog: a case that does not terminate is a finding about the subject, not a hung check
+static WATCH: std::sync::Mutex<Vec<(std::thread::ThreadId, Instant, usize, usize)>> = std::sync::Mutex::new(Vec::new());
+static WATCH_ID: std::sync::Mutex<Option<(String, &'static str)>> = std::sync::Mutex::new(None);
+static WATCH_STARTED: std::sync::atomic::AtomicBool = std::sync::atomic::AtomicBool::new(false);
+
+fn case_timeout_s() -> u64 {
+    std::env::var("VERIF_CASE_TIMEOUT_S").ok().and_then(|s| s.parse().ok()).unwrap_or(300)
+}
+
+fn watch_begin(stage: usize, idx: usize) {
+    let me = std::thread::current().id();
+    let mut w = WATCH.lock().unwrap();
+    w.retain(|e| e.0 != me);
+    w.push((me, Instant::now(), stage, idx));
+    drop(w);
+    if !WATCH_STARTED.swap(true, std::sync::atomic::Ordering::SeqCst) {
+        std::thread::spawn(|| loop {
+            std::thread::sleep(std::time::Duration::from_secs(2));
+            let limit = case_timeout_s();
+            let hit = WATCH.lock().unwrap().iter().find(|e| e.1.elapsed().as_secs() > limit).map(|e| (e.2, e.3));
+            if let Some((stage, idx)) = hit {
+                let (id, tier) = WATCH_ID.lock().unwrap().clone().unwrap_or(("unknown".into(), "quick"));
+                let rdir = root().join("replays");
+                let _ = std::fs::create_dir_all(&rdir);
+                let path = rdir.join(format!("{}-timeout.json", id));
+                let summary = format!("case (stage {stage}, index {idx}) did not terminate within {limit} s: an operation of the library hangs");
+                let rec = json!({"property": id, "tier": tier, "summary": summary, "tags": {"kind": "timeout"}, "record": {"replay_stage": stage, "replay_case_index": idx}});
+                let _ = std::fs::write(&path, serde_json::to_string_pretty(&rec).unwrap());
+                println!("VIOLATION property={} replay={}", id, path.display());
+                println!("  {summary}");
+                std::process::exit(1);
+            }
+        });
+    }
+}
+
+fn watch_end() {
+    let me = std::thread::current().id();
+    WATCH.lock().unwrap().retain(|e| e.0 != me);
+}
+
 /// `VERIF_ONLY=<stage>:<index>` restricts a run to one case (used by `./check replay`).
 fn only_filter() -> Option<(usize, usize)> {
     let v = std::env::var("VERIF_ONLY").ok()?;
@@ -356,7 +398,9 @@ pub fn par_cases<C: Sync, F: Fn(usize, &C) -> CaseOut + Sync>(cases: &[C], f: F)
             let mut acc = CaseOut::default();
             for (j, c) in ch.iter().enumerate() {
                 let idx = ci * chunk + j;
+                watch_begin(stage, idx);
                 let o = tag(f(idx, c), idx);
+                watch_end();
                 acc.merge(o);
             }
             acc
